@@ -15,6 +15,7 @@ pub fn info() -> PropInfo {
         rule: "proptest: issued SD-JWT (claims x strategy x decoys) + a second credential over the same claims; disclosure list assembled symbolically from: subsets / permutations of the genuine disclosures (children without parents included), genuine ones with salt / name / value altered, re-serialised (no spaces, extra spaces, \\u escape), re-encoded base64 (padding, standard alphabet, trailing bits, truncation), forged 3- and 2-element disclosures naming iss/exp/cnf/_sd_alg/existing/hidden/new names with and without real salts, foreign disclosures, duplicates, garbage; hand-assembled into jwt~s1~..~sn~ / JSON. Oracle: Err always acceptable; on Ok claims == view over the genuine disclosures present (node visible iff all hidden ancestors present); reversed list, if accepted, gives the same claims. Non-trivial: the verifier returned Ok on a list that contains a non-genuine string, an orphan child, a duplicate, or for a non-identity permutation. Distinct: hash of the case JSON.",
         assumptions: &["a forged or altered disclosure can only be referenced through a SHA-256 collision", "garbage strings are generated in 1 case out of 4 only, because today's verifier rejects the whole presentation on the first undecodable string"],
         needs_mock: false,
+        rounds: 4,
     }
 }
 
